@@ -93,7 +93,7 @@ def project(c):
     elif spelling == "project-abs":
         dest = "project:/" + dst + ".md"
     elif spelling == "label":
-        dest = "#lbl-" + dst.replace("/", "-")
+        dest = "#Lbl-" + dst.replace("/", "-")  # labels are case-insensitive: written with a capital, stored normalised
         kind = "label"
     elif spelling == "label-missing":
         dest = "#lbl-nosuch"
@@ -136,7 +136,7 @@ def write_project(d, spec):
         p = os.path.join(d, doc + ".md")
         os.makedirs(os.path.dirname(p), exist_ok=True)
         tag = doc.replace("/", "-")
-        lines = ["(lbl-%s)=" % tag, "# %s" % spec["titles"][doc], "", "para", "", "## Sub heading %s" % tag, "", "text", ""]
+        lines = ["(Lbl-%s)=" % tag, "# %s" % spec["titles"][doc], "", "para", "", "## Sub heading %s" % tag, "", "text", ""]
         if doc == spec["src"]:
             lines += ["LINK " + spec["md"], ""]
         if doc == "index":
